@@ -236,7 +236,9 @@ CLAIMED = {
              "never changes the state, and names itself when it panics; each acting macro that passes establishes its postcondition (mkdir_p, "
              "mkdir_m incl. the permission bits, mkfile, write_all, symlink, remove, remove_all). "
              "Tied by expanding the real macros under catch_unwind in every reachable state of a bounded namespace x every path x matching and "
-             "non-matching expected values, comparing pass / panic and the macro named in the message. Partial: the Stdfs side runs under C02; the "
+             "non-matching expected values, comparing pass / panic and the macro named in the message. On Stdfs (sandbox): every macro runs under C02 inside its domain, "
+             "and every checking macro is judged against the query it stands for and the acting macros against the plain call on states with dangling links "
+             "(tools/c_std.py; found and repaired: is_symlink! / no_symlink! on a dangling link). Partial: the theorems are about the Memfs mirror; the "
              "message's path is checked by the harness, not modelled.",
         note="Trusted: Coq kernel; macro mirrors hand-written from src/testing.rs (tied by the correspondence); extraction, driver, harness, differ.",
         technique="Coq proof (iff per macro) + exhaustive correspondence under catch_unwind",
@@ -251,8 +253,9 @@ CLAIMED = {
              "stored relative target. Tied by (link position, target position) pairs in trees up to depth 4, "
              "absolute and relative spelling, target absent / file / dir / link; the statement's clauses (readlink_abs = abs(target), "
              "clean(dir(link)/readlink) = readlink_abs, readlink relative, link exclusion, is_symlink_dir / is_symlink_file) evaluated on the "
-             "implementation's results; remove / chmod / chown without follow judged on pre/post snapshots to leave the target untouched. "
-             "KF-C10-self-dir recorded.",
+             "implementation's results; remove / chmod / chown without follow judged on pre/post snapshots to leave the target untouched; the same pairs with the "
+             "link then moved; and on Stdfs (sandbox) the same clauses and the removal of links judged on Stdfs's own answers, dangling links included "
+             "(found and repaired: no entry for a dangling link on Stdfs). KF-C10-self-dir recorded.",
         note="Trusted: Coq kernel; posixpath.normpath as the lexical clean of absolute paths in the judge; extraction, driver, harness, differ.",
         technique="Coq proof (entry lemmas, C16 navigation) + exhaustive correspondence + clause evaluation on the implementation",
         ref="§7 C10"),
